@@ -12,6 +12,7 @@ import OFV.Proofs.C10Det
 import OFV.Proofs.C10Sz
 import OFV.Proofs.C10SzOp
 import OFV.Proofs.C10Basis
+import OFV.Proofs.C10Two
 
 namespace OFV.C10
 open OFV.Model OFV.Model.C10 OFV.Spec OFV.Spec.C10
@@ -171,6 +172,17 @@ theorem expectation_vector_is_list (op : Op) (occ : List Nat) (n : Nat) (h : occ
     expectCBSVector op (2 ^ n) (configIndex occ n) = expectCBS op ((List.range n).map fun j => decide (j ∈ occ)) := by
   unfold expectCBSVector
   rw [Nat.log2_two_pow, bitsOfIndex_config occ n h hlt]
+
+/-- The three kinds of terms `expectation_computational_basis_state` reads off a normal-ordered
+operator have, in the Spec, exactly the diagonal elements the function adds: the constant `1`,
+`i^ i ↦ n_i`, and `j^ i^ j i ↦ -n_i n_j` for `i < j` (counted only when *both* orbitals are
+occupied, with a minus sign — the content of the fix 8e78ab20). -/
+theorem expectation_terms_sound (i j s : Nat) (hij : i < j) :
+    actFTerm [] s = some (0, s) ∧
+    actFTerm [(i, 1), (i, 0)] s = (if s.testBit i then some (0, s) else none) ∧
+    actFTerm [(j, 1), (i, 1), (j, 0), (i, 0)] s
+      = (if s.testBit i && s.testBit j then some (1, s) else none) :=
+  ⟨rfl, actFTerm_number i s, actFTerm_two_body i j s hij⟩
 
 /-! ## get_number_preserving_sparse_operator -/
 
